@@ -360,3 +360,41 @@ def write_if_changed(path, content):
     with open(path, "w") as f:
         f.write(content)
     return True
+
+
+# ----------------------------------------------------------------------------- corpus builds
+
+def corpus_build(gdir, spans, timeout=3000):
+    """Build a generated workspace; map compile errors back to generated programs.
+    spans: {(shard, prog id): (first line, last line)} of each program in <shard>/src/main.rs.
+    Returns (failed: {prog id: first error text}, unattributed error text or None)."""
+    rc, out, _ = cargo(["build", "--keep-going", "--message-format=json"], gdir, check=False, timeout=timeout)
+    failed = {}
+    loose = []
+    for line in out.splitlines():
+        if not line.startswith("{"):
+            continue
+        try:
+            m = json.loads(line)
+        except ValueError:
+            continue
+        if m.get("reason") != "compiler-message" or m.get("message", {}).get("level") != "error":
+            continue
+        msg = m["message"]
+        shard = m.get("target", {}).get("name", "")
+        hit = None
+        for sp in msg.get("spans", []):
+            if sp.get("file_name", "").endswith("main.rs"):
+                for (sh, pid), (a, b) in spans.items():
+                    if sh == shard and a <= sp.get("line_start", 0) <= b:
+                        hit = pid
+                if hit:
+                    break
+        text = msg.get("rendered") or msg.get("message", "")
+        if hit:
+            failed.setdefault(hit, text)
+        elif "aborting due to" not in text and "could not compile" not in text:
+            loose.append(text)
+    if rc != 0 and not failed and not loose:
+        loose.append(out[-3000:])
+    return failed, ("\n".join(loose) if loose else None)
